@@ -69,6 +69,63 @@ theorem history_indep_names (pf : ParseFn) (pol : Policy) (cs : List Call) (s : 
     (listNamesCall (cs.foldl (runCall pf pol) s) expr limit).1 = (listNamesCall s expr limit).1 :=
   list_names_indep _ _ _ _
 
+/-- `parse` and `list_names` never touch the evaluation state (heap, VM states, log, budgets) -/
+theorem parse_keeps_world_nocache (pf : ParseFn) (pol : Policy) (s : Session) (expr : List Char) (h : s.cache = none) :
+    (parseCall pf pol s expr).2.world = s.world ∧ (parseCall pf pol s expr).2.budgets = s.budgets := by
+  simp only [parseCall, parseCallWith, h]
+  cases pf (applyResets Resets.all s.lex) expr <;> exact ⟨rfl, rfl⟩
+
+theorem history_keeps_world (pf : ParseFn) (pol : Policy) (cs : List Call) (s : Session) (h : s.cache = none) :
+    (cs.foldl (runCall pf pol) s).world = s.world ∧ (cs.foldl (runCall pf pol) s).budgets = s.budgets := by
+  induction cs generalizing s with
+  | nil => exact ⟨rfl, rfl⟩
+  | cons c cs ih =>
+    simp only [List.foldl_cons]
+    cases c with
+    | parse e =>
+      obtain ⟨h1, h2⟩ := ih (runCall pf pol s (.parse e)) (parse_keeps_no_cache pf pol s e h)
+      obtain ⟨w1, b1⟩ := parse_keeps_world_nocache pf pol s e h
+      exact ⟨h1.trans w1, h2.trans b1⟩
+    | names e l =>
+      obtain ⟨h1, h2⟩ := ih (runCall pf pol s (.names e l)) (by simp [runCall, list_names_keeps_cache, h])
+      exact ⟨h1, h2⟩
+
+/-- **[B] `eval` after any history of parse / list_names calls** — successful, failed with lexical or syntax errors,
+    generators abandoned midway — gives the result, the error and the world (names mappings, host objects, log) that the
+    same `eval` gives without that history -/
+theorem history_indep_eval (pf : ParseFn) (pol : Policy) (fuel : Nat) (cs : List Call) (s : Session) (h : s.cache = none)
+    (expr : List Char) (namesAddr budget : Nat) :
+    (evalCall pf pol fuel (cs.foldl (runCall pf pol) s) expr namesAddr budget).1 = (evalCall pf pol fuel s expr namesAddr budget).1 ∧
+    (evalCall pf pol fuel (cs.foldl (runCall pf pol) s) expr namesAddr budget).2.world =
+      (evalCall pf pol fuel s expr namesAddr budget).2.world := by
+  obtain ⟨hw, hb⟩ := history_keeps_world pf pol cs s h
+  have hn := history_keeps_no_cache pf pol cs s h
+  generalize cs.foldl (runCall pf pol) s = s2 at hw hb hn
+  simp only [evalCall, evalCallWith]
+  have e1 : parseCallWith Resets.all pf pol s2 (Str.rstrip expr) = parseCall pf pol s2 (Str.rstrip expr) := rfl
+  have e2 : parseCallWith Resets.all pf pol s (Str.rstrip expr) = parseCall pf pol s (Str.rstrip expr) := rfl
+  rw [e1, e2]
+  have hp := parse_indep pf pol s2 s (Str.rstrip expr) hn h
+  obtain ⟨w1, b1⟩ := parse_keeps_world_nocache pf pol s2 (Str.rstrip expr) hn
+  obtain ⟨w2, b2⟩ := parse_keeps_world_nocache pf pol s (Str.rstrip expr) h
+  generalize parseCall pf pol s2 (Str.rstrip expr) = p at hp w1 b1
+  generalize parseCall pf pol s (Str.rstrip expr) = p' at hp w2 b2
+  obtain ⟨r, s1⟩ := p
+  obtain ⟨r', s1'⟩ := p'
+  simp only at hp w1 b1 w2 b2
+  subst hp
+  have hww : s1.world = s1'.world := by rw [w1, w2, hw]
+  have hbb : s1.budgets = s1'.budgets := by rw [b1, b2, hb]
+  cases r with
+  | ok ast =>
+    simp only []
+    rw [hww, hbb]
+    cases (runUntil fuel (initCfg s1'.world s1'.budgets namesAddr budget ast)).ctl <;> exact ⟨rfl, rfl⟩
+  | lexErr c => exact ⟨rfl, hww⟩
+  | synErr x y => exact ⟨rfl, hww⟩
+  | resErr m => exact ⟨rfl, hww⟩
+  | unmodelled u => exact ⟨rfl, hww⟩
+
 /-- `eval`: the parse stage is independent of the session; the evaluation runs on a *fresh* VM
     state carrying the caller's budget, whose scope stack holds only the caller's mapping -/
 theorem eval_fresh_vm (w : World) (bs : List Nat) (namesAddr budget : Nat) (ast : Op) :
